@@ -3,6 +3,7 @@
 from typing import TYPE_CHECKING, Dict, Optional, Union
 
 import numpy as np
+from optlang.interface import OPTIMAL
 from optlang.symbolics import Zero
 
 from ..core import get_solution
@@ -180,6 +181,11 @@ def loopless_solution(
     # TODO: check solution status
     if fluxes is None:
         sol = model.optimize(objective_sense=None)
+        if sol.status != OPTIMAL:
+            # There is no flux distribution to start from. Going on with the
+            # meaningless values of a failed optimization could even yield an
+            # "optimal" solution that violates the bounds of the model.
+            return sol
         fluxes = sol.fluxes
         opt = sol.objective_value
     else:
